@@ -17,7 +17,15 @@ RULE = ("cases: (i) integers - every |v| <= 2^18 (thorough 2^22), +-2^k+d for k 
         "(vi) call histories on the shared ScriptTools / ScriptStreamer objects - every query class re-checked right after a "
         "call that failed part-way (script text with a bad token after k good ones, non-minimal push under "
         "verify_minimal_data, truncated script, wrong argument type, non-minimal number), after an abandoned or exhausted "
-        "get_opcodes iterator, and with two iterators advanced alternately. Non-trivial: v != 0, non-empty string, any push, "
+        "get_opcodes iterator, after another ScriptStreamer/ScriptTools pair with other tables was built and used, and with two "
+        "iterators advanced alternately; (vii) truncation x minimal-push rule matrix - every direct opcode 1..75 and "
+        "PUSHDATA1/2/4 (length field cut at every point, announced lengths of every class up to 2^32-1) with the surviving data "
+        "bytes drawn from each class (none / one byte with its own opcode 01..10,81 / one other byte / several), behind several "
+        "prefixes, asked through get_opcode (flag by keyword and positionally), get_opcodes (pc argument in both spellings, and "
+        "from 0), decoders built through the public constructor with our own non_minimal_data_handler, opcode_list, and the "
+        "interpreter (push in the locking script, in the unlocking script, in an unexecuted branch) - each with and without "
+        "minimal-push verification; pycoin's own pushes are asked about through the same entry points; compile_push_data_list "
+        "with None entries and write_push_data into a non-empty stream. Non-trivial: v != 0, non-empty string, any push, "
         "script with >= 1 instruction; distinct by (kind, value).")
 ASSUMPTIONS = [
     "vmon/refs/scriptnum.py is a faithful port of Core's CScriptNum::serialize/set_vch/minimality test, GetScriptOp, "
@@ -27,7 +35,14 @@ ASSUMPTIONS = [
     "'known opcodes' are the opcodes Core names: 0x4f..0xb9 and 0xff (OP_INVALIDOPCODE), plus the push forms",
     "'the consensus minimal-push rule accepts' is read as: reference CheckMinimalPush accepts the emitted opcode AND "
     "pycoin's own implementation of that rule (get_opcode / get_opcodes with verify_minimal_data=True) does not reject it",
-    "'reported as malformed' is read as get_opcode returning is_ok == False (an exception is tolerated as a report too)",
+    "'reported as malformed' is read as get_opcode returning is_ok == False / get_opcodes yielding data None for the push "
+    "opcode / the interpreter refusing the script; an unrelated exception is tolerated as a report too, but NOT the report "
+    "pycoin gives for a complete push that is not in the shortest form (learned at run time from pycoin itself on complete "
+    "non-shortest pushes: exception type + error_code(), or a call of the non_minimal_data_handler passed to the "
+    "ScriptStreamer constructor): the reference classifies a truncated push as malformed whether or not minimal pushes are "
+    "demanded (Core: GetOp fails -> BAD_OPCODE before CheckMinimalPush is reached)",
+    "opcode_list/disassemble of a script ending in a truncated push: only that the truncated push is not shown as a [data] "
+    "token and that the tokens of the complete instructions before it are those of that prefix alone",
     "decoding of NON-minimal number encodings without require_minimal, rejection of non-minimal pushes under "
     "verify_minimal_data, and the text form of scripts outside 'known opcodes and minimal pushes' are not judged "
     "(the statement is silent; C03 covers the interpreter side)",
@@ -61,6 +76,8 @@ def plan(tier, seed):
     for lo, hi in ((0, 200), (200, 400), (400, 601), (65400, 65601), (69990, 70001)):
         shards.append({"kind": "push_len", "lo": lo, "hi": hi, "reps": 1 if q else 12, "label": "push%d" % lo})
     shards.append({"kind": "trunc", "n": 4000 if q else 200000, "label": "trunc"})
+    for p in range(2 if q else 4):
+        shards.append({"kind": "truncm", "n": 1500 if q else 60000, "part": p, "parts": 2 if q else 4, "label": "truncm%d" % p})
     shards.append({"kind": "script_enum", "label": "script_enum"})
     for p in range(2 if q else 6):
         shards.append({"kind": "hist", "n": 4000 if q else 60000, "label": "hist%d" % p})
@@ -84,6 +101,7 @@ def _imports():
     from pycoin.satoshi.IntStreamer import IntStreamer
     from pycoin.symbols.btc import network
     m = _M()
+    m.network = network
     m.tools = network.script
     m.streamer = network.script.scriptStreamer
     m.ints = [IntStreamer]
@@ -123,6 +141,9 @@ def check_numbytes(s, rec, M):
     for IS in M.ints:
         rec.ev("int_from_script_bytes.require_minimal")
         st, got = observe(IS.int_from_script_bytes, s, require_minimal=True)
+        stp, gotp = observe(IS.int_from_script_bytes, s, True)
+        if (stp == "ok") != (st == "ok") or (st == "ok" and gotp != got):
+            rec.violation("scriptnum.require_minimal_positional_differs", {"kind": "numbytes", "s": s}, gotp, got)
         if minimal:
             rec.ev("numbytes.minimal")
             if st != "ok":
@@ -268,7 +289,43 @@ def check_push(case, rec, M):
         rec.violation(_reject_mech(d, p), case, r, "accepted")
     elif r[1] is None or bytes(r[1]) != d or r[2] != len(p) or r[3] is not True:
         rec.violation("push.decode_mismatch_under_minimal." + R.minimal_form(d), case, [r[0], r[2], r[3]], [p[0], len(p), True])
+    if case.get("wide"):
+        check_push_wide(case, d, p, rec, M)
     return p
+
+
+def check_push_wide(case, d, p, rec, M):
+    """The push pycoin emitted, asked about in the less travelled ways: flag given positionally, a decoder built with our own
+    non_minimal_data_handler (must not be called), the iterator with the flag, the interpreter with VERIFY_MINIMALDATA."""
+    rec.ev("get_opcode.verify_minimal_data.positional")
+    st, r = observe(M.streamer.get_opcode, p, 0, True)
+    if st != "ok":
+        rec.violation(_reject_mech(d, p), case, r, "accepted")
+    elif r[1] is None or bytes(r[1]) != d or r[2] != len(p) or r[3] is not True:
+        rec.violation("push.decode_mismatch_under_minimal." + R.minimal_form(d), case, [r[0], r[2], r[3]], [p[0], len(p), True])
+    for raising in (0, 1):
+        pst, ptools, log = _private(M, raising)
+        for vmd in (True, False):
+            del log[:]
+            rec.ev("private_handler.own_push")
+            st, r = observe(pst.get_opcode, b"\x51" + p, 1, verify_minimal_data=vmd)
+            if log or (st != "ok" and isinstance(r, _NonMinimalReport)):
+                rec.violation(_reject_mech(d, p) + ".handler_called", case, list(log[:2]), "handler not called")
+            elif st != "ok" or r[1] is None or bytes(r[1]) != d or r[2] != len(p) + 1 or r[3] is not True or r[0] != p[0]:
+                rec.violation("push.decode_mismatch." + R.minimal_form(d), case,
+                              r if st != "ok" else [r[0], None if r[1] is None else len(r[1]), r[2], r[3]], [p[0], len(d), len(p) + 1, True])
+        del log[:]
+        st, got = observe(lambda: list(ptools.get_opcodes(p + b"\x51" + p, True)))
+        if log or st != "ok" or len(got) != 3:
+            rec.violation(_reject_mech(d, p) + ".handler_called", case, list(log[:2]) or got, "handler not called, 3 instructions")
+    if len(d) <= 520:
+        F = M.network.validator.flags.VERIFY_MINIMALDATA
+        for role, sig, pub in (("pubkey", b"", p + b"\x75\x51"), ("sig", p, b"\x75\x51")):
+            rec.ev("vm.own_push." + role)
+            plain, e0 = _vm_run(M, sig, pub, 0)
+            strict, e1 = _vm_run(M, sig, pub, F)
+            if plain == "ok" and strict != "ok":
+                rec.violation("vm." + _reject_mech(d, p), dict(case, role=role), e1, "accepted under VERIFY_MINIMALDATA as without it")
 
 
 def check_push_list(datas, rec, M, case):
@@ -280,6 +337,21 @@ def check_push_list(datas, rec, M, case):
     if st != "ok" or bytes(s) != exp:
         rec.violation("pushlist.encode_mismatch", case, s if st != "ok" else bytes(s)[:16], exp[:16])
         return
+    # the same list with None entries (skipped by contract of compile_push_data_list; a refusal is tolerated)
+    k = len(exp) % (len(datas) + 1)
+    holed = [None] * (k == 0) + list(datas[:k]) + [None] + list(datas[k:]) + [None] * (len(exp) & 1)
+    rec.ev("compile_push_data_list.none_entries")
+    st, s = observe(M.tools.compile_push_data_list, holed)
+    if st == "ok" and bytes(s) != exp:
+        rec.violation("pushlist.none_entries_encode_mismatch", case, bytes(s)[:16], exp[:16])
+    # the stream-writing entry point, appending to a stream that already holds something
+    import io
+    f = io.BytesIO()
+    f.write(b"\xfe\xfd")
+    rec.ev("write_push_data")
+    st, r = observe(M.tools.write_push_data, list(datas), f)
+    if st != "ok" or f.getvalue() != b"\xfe\xfd" + exp:
+        rec.violation("pushlist.write_push_data_mismatch", case, r if st != "ok" else f.getvalue()[2:18], exp[:16])
     check_decode_sequence(exp, rec, M, case)
 
 
@@ -305,10 +377,14 @@ def check_decode_sequence(script, rec, M, case):
             start = ref[k][2]
             rec.ev("get_opcodes.start_pc")
             for call in ((lambda: list(M.tools.get_opcodes(script, pc=start))) if kw else
-                         (lambda: list(M.tools.get_opcodes(script, False, start))),):
+                         (lambda: list(M.tools.get_opcodes(script, False, start))),
+                         (lambda: list(M.tools.get_opcodes(script, pc=start, verify_minimal_data=True))) if not kw else
+                         (lambda: list(M.tools.get_opcodes(script, True, start)))):
                 st, got = observe(call)
                 tail = None if st != "ok" else [(g[0], None if g[1] is None else bytes(g[1]), g[2], g[3]) for g in got]
                 want = [(op, R.stack_value(op, data), pc, npc) for op, data, pc, npc in ref[k:]]
+                if tail is None and _exc_sig(got) in _nonmin_sigs(M):
+                    break           # the minimal-push rule refused something: located and reported below
                 if tail is None or len(tail) != len(want) or any(
                         (t[0], t[2], t[3]) != (w[0], w[2], w[3]) or (w[1] is not None and t[1] != w[1]) for t, w in zip(tail, want)):
                     rec.violation("get_opcodes.start_pc_mismatch", dict(case, start_pc=start),
@@ -351,12 +427,12 @@ def _patterns(rng, L):
 
 def run_push_small(spec, rec, M):
     rng = shard_rng(spec["seed"], PROPERTY, spec["tier"], spec["shard"])
-    check_push({"kind": "push", "len": 0, "pattern": b"\x00"}, rec, M)
+    check_push({"kind": "push", "len": 0, "pattern": b"\x00", "wide": 1}, rec, M)
     for b in range(256):
-        check_push({"kind": "push", "len": 1, "pattern": bytes([b])}, rec, M)
+        check_push({"kind": "push", "len": 1, "pattern": bytes([b]), "wide": 1}, rec, M)
     if spec.get("two"):
         for x in range(65536):
-            check_push({"kind": "push", "len": 2, "pattern": x.to_bytes(2, "big")}, rec, M)
+            check_push({"kind": "push", "len": 2, "pattern": x.to_bytes(2, "big"), "wide": int(x % 61 == 0)}, rec, M)
     # lists of pushes
     for i in range(spec["n"]):
         k = rng.choice([0, 1, 2, 3, 5, 8, 20])
@@ -377,7 +453,7 @@ def run_push_len(spec, rec, M):
             for pat in _patterns(rng, L):
                 if rep and len(pat) == 1:
                     continue
-                case = {"kind": "push", "len": L, "pattern": pat if len(pat) <= 600 else pat[:600]}
+                case = {"kind": "push", "len": L, "pattern": pat if len(pat) <= 600 else pat[:600], "wide": int(len(pat) > 1 or pat == b"\x01")}
                 p = check_push(case, rec, M)
                 if p is not None and len(pat) > 1 and L < 3000:
                     # the same push after other instructions (pc != 0), and inside a list
@@ -469,6 +545,286 @@ def run_trunc(spec, rec, M):
         prefix = b"".join(rng.choice([b"\x00", b"\x51", b"\x76", b"\x01\x4c", b"\x4c\x01\x4d", b"\xff"]) for _ in range(rng.randrange(0, 4)))
         check_trunc({"kind": "trunc", "form": form, "len": n, "pattern": bytes([rng.getrandbits(8)]), "cut": cut, "prefix": prefix}, rec, M)
     rec.sample({"op": "get_opcode", "script": bytes.fromhex("4d51"), "reference": "unreadable (length field short)"})
+
+
+# -- truncation x minimal-push rule, through every entry point ----------------------------------------
+# The reference decoder puts the instruction at pc into one of three classes: "malformed" (GetOp fails), "nonminimal"
+# (readable, minimal pushes demanded, CheckMinimalPush refuses) or "ok". A truncated push is malformed in BOTH modes, whatever
+# the few surviving bytes look like; pycoin must say so through every way of asking.
+
+CONST_BYTES = tuple(range(1, 17)) + (0x81,)            # one-byte data that has its own opcode (OP_1..OP_16, OP_1NEGATE)
+OTHER_BYTES = (0x00, 0x11, 0x4b, 0x4c, 0x7f, 0x80, 0x82, 0xff)
+
+
+class _NonMinimalReport(Exception):
+    pass
+
+
+def _ref_class(script, pc, minimal):
+    ok, op, data, npc = R.get_op(script, pc)
+    if not ok:
+        return "malformed"
+    if minimal and op <= R.OP_PUSHDATA4 and not R.check_minimal_push(data, op):
+        return "nonminimal"
+    return "ok"
+
+
+def _exc_sig(e):
+    code = None
+    f = getattr(e, "error_code", None)
+    if callable(f):
+        st, code = observe(f)
+        if st != "ok":
+            code = None
+    return (type(e).__name__, code)
+
+
+def _nonmin_sigs(M):
+    """How pycoin's shared decoder words its 'this complete push is not in the shortest form' report (learned from pycoin
+    itself on complete, readable, non-shortest pushes; nothing is assumed about codes or messages)."""
+    if getattr(M, "nonmin_sigs", None) is None:
+        sigs = set()
+        for s in (b"\x01\x05", b"\x01\x81", b"\x4c\x01\x20", b"\x4c\x02ab", b"\x4d\x02\x00ab", b"\x4e\x03\x00\x00\x00abc"):
+            st, e = observe(M.streamer.get_opcode, s, 0, verify_minimal_data=True)
+            if st != "ok":
+                sigs.add(_exc_sig(e))
+        M.nonmin_sigs = sigs
+    return M.nonmin_sigs
+
+
+def _private(M, raising):
+    """A ScriptStreamer / ScriptTools pair built through the public constructors with OUR non_minimal_data_handler, so that
+    'classified as non-minimal' is observed as a call of the handler."""
+    key = "private_%d" % raising
+    if getattr(M, key, None) is None:
+        from pycoin.vm.ScriptStreamer import ScriptStreamer
+        from pycoin.vm.ScriptTools import ScriptTools
+        from pycoin.coins.bitcoin import ScriptStreamer as B
+        from pycoin.satoshi import opcodes
+        from pycoin.satoshi.IntStreamer import IntStreamer
+        log = []
+
+        def handler(msg):
+            log.append(msg)
+            if raising:
+                raise _NonMinimalReport(msg)
+
+        st = ScriptStreamer(B.make_opcode_const_list(), B.make_opcode_sized_list(), B.make_opcode_variable_list(),
+                            dict(o for o in opcodes.OPCODE_LIST), handler)
+        setattr(M, key, (st, ScriptTools(opcodes.OPCODE_LIST, IntStreamer, st), log))
+    return getattr(M, key)
+
+
+def _pycoin_class(M, call):
+    """-> (class, detail): 'ok' / 'malformed' (is_ok False) / 'nonminimal' (worded as for a complete non-shortest push) /
+    'exception' (anything else raised)."""
+    st, r = observe(call)
+    if st == "ok":
+        return ("ok" if r[3] is not False else "malformed"), [r[0], None if r[1] is None else bytes(r[1])[:8], r[2], r[3]]
+    if isinstance(r, _NonMinimalReport) or _exc_sig(r) in _nonmin_sigs(M):
+        return "nonminimal", r
+    return "exception", r
+
+
+def _vm_run(M, script_sig, script_pubkey, flags):
+    net = M.network
+    credit = net.tx(1, [net.tx.TxIn(b"\0" * 32, 4294967295, b"\0\0")], [net.tx.TxOut(0, script_pubkey)])
+    spend = net.tx(1, [net.tx.TxIn(credit.hash(), 0, script_sig)], [net.tx.TxOut(0, b"")],
+                   unspents=credit.tx_outs_as_spendable())
+    st, e = observe(lambda: spend.check_solution(tx_in_idx=0, flags=flags))
+    return ("ok", None) if st == "ok" else (_exc_sig(e), e)
+
+
+def _vm_nonmin_sigs(M):
+    """The interpreter's wording for a complete non-shortest push under VERIFY_MINIMALDATA (learned from pycoin itself)."""
+    if getattr(M, "vm_nonmin_sigs", None) is None:
+        sigs = set()
+        F = M.network.validator.flags.VERIFY_MINIMALDATA
+        for s in (b"\x01\x05", b"\x4c\x02ab", b"\x4d\x02\x00ab"):
+            plain, _ = _vm_run(M, b"", s + b"\x75\x51", 0)
+            strict, _ = _vm_run(M, b"", s + b"\x75\x51", F)
+            if plain == "ok" and strict != "ok":
+                sigs.add(strict)
+        M.vm_nonmin_sigs = sigs
+    return M.vm_nonmin_sigs
+
+
+def _form_of(head):
+    return "direct" if head[0] < R.OP_PUSHDATA1 else "pushdata"
+
+
+def check_truncm(case, rec, M):
+    """case: prefix (complete minimal pushes), head (push opcode + what is left of its length field), tail (surviving data
+    bytes), vm (also run the interpreter) -> the instruction at len(prefix) is a truncated push."""
+    prefix, head, tail = case["prefix"], case["head"], case["tail"]
+    script = prefix + head + tail
+    pc = len(prefix)
+    assert _ref_class(script, pc, False) == "malformed" and _ref_class(script, pc, True) == "malformed", "generator error"
+    assert R.parse(prefix) is not None
+    form = _form_of(head)
+    width = {R.OP_PUSHDATA1: 1, R.OP_PUSHDATA2: 2, R.OP_PUSHDATA4: 4}.get(head[0], 0)
+    where = "length_field" if len(head) - 1 < width else "data"
+    if len(tail) == 0:
+        tclass = "none"
+    elif len(tail) == 1:
+        tclass = "one_const" if tail[0] in CONST_BYTES else "one_other"
+    else:
+        tclass = "several"
+    rec.case(("truncm", prefix, head, tail))
+    rec.ev("truncm.%s.%s.%s" % (form, where, tclass))
+    nprefix = len(R.parse(prefix))
+    for vmd in (False, True):
+        tag = "minimal_on" if vmd else "minimal_off"
+        # 1. the shared decoder, flag spelled both ways
+        calls = [lambda: M.streamer.get_opcode(script, pc, verify_minimal_data=vmd), lambda: M.streamer.get_opcode(script, pc, vmd)]
+        if not vmd:
+            calls.append(lambda: M.streamer.get_opcode(script, pc))
+        for call in calls:
+            rec.ev("get_opcode.truncated." + tag)
+            cls, detail = _pycoin_class(M, call)
+            if cls == "ok":
+                rec.violation("push.truncated_reported_ok." + where, case, detail, "is_ok False")
+            elif cls == "nonminimal":
+                rec.violation("push.truncated_reported_non_minimal." + form, case, detail, "is_ok False (malformed)")
+            elif cls == "exception":
+                rec.ev("trunc.reported_by_exception")
+                rec.note("get_opcode raised %s on a truncated push (tolerated as a report)" % type(detail).__name__)
+        # 2. the iterator: from the truncated push itself (pc argument) and from 0 through the prefix
+        for spelled, start, skip in (("kw", pc, 0), ("pos", pc, 0), ("from0", 0, nprefix)):
+            rec.ev("get_opcodes.truncated." + tag)
+
+            def walk():
+                if spelled == "kw":
+                    it = M.tools.get_opcodes(script, pc=start, verify_minimal_data=vmd)
+                elif spelled == "pos":
+                    it = M.tools.get_opcodes(script, vmd, start)
+                else:
+                    it = M.tools.get_opcodes(script, vmd)
+                out = []
+                for _ in range(skip):
+                    out.append(next(it))
+                reached.append(1)
+                out.append(next(it))
+                return out
+            reached = []
+            st, got = observe(walk)
+            if not reached:
+                rec.ev("truncm.prefix_not_walked(unjudged here)")       # a fault in a complete push: reported by the other shards
+            elif st == "ok":
+                g = got[-1]
+                if g[2] != pc or g[0] != head[0]:
+                    rec.violation("get_opcodes.truncated_wrong_instruction", case, [g[0], g[2], g[3]], [head[0], pc])
+                elif g[1] is not None:
+                    rec.violation("get_opcodes.truncated_yields_data." + where, case, [g[0], bytes(g[1])[:8], g[2], g[3]], "data None")
+            elif _exc_sig(got) in _nonmin_sigs(M):
+                rec.violation("get_opcodes.truncated_reported_non_minimal." + form, case, got, "data None (malformed)")
+            else:
+                rec.ev("trunc.reported_by_exception")
+                rec.note("get_opcodes raised %s on a truncated push (tolerated as a report)" % type(got).__name__)
+        # 3. decoders built with our own non_minimal_data_handler: it must not be called for a truncated push
+        for raising in (0, 1):
+            pst, ptools, log = _private(M, raising)
+            for who in ("get_opcode", "get_opcodes"):
+                del log[:]
+                rec.ev("private_handler.truncated." + tag)
+                if who == "get_opcode":
+                    cls, detail = _pycoin_class(M, lambda: pst.get_opcode(script, pc, verify_minimal_data=vmd))
+                else:
+                    st, g = observe(lambda: next(ptools.get_opcodes(script, vmd, pc)))
+                    if st != "ok":
+                        cls, detail = ("nonminimal" if isinstance(g, _NonMinimalReport) else "exception"), g
+                    else:
+                        cls, detail = ("malformed" if g[1] is None else "ok"), [g[0], None if g[1] is None else bytes(g[1])[:8], g[2], g[3]]
+                if log or cls == "nonminimal":
+                    rec.violation("push.truncated_calls_non_minimal_handler." + form, case, list(log[:2]) or detail, "handler not called")
+                elif cls == "ok":
+                    rec.violation("push.truncated_reported_ok." + where, case, detail, "is_ok False")
+    # 4. the text side: a truncated push is not shown as a data push, and what precedes it is shown as it is alone
+    rec.ev("opcode_list.truncated")
+    st, lst = observe(M.tools.opcode_list, script)
+    st0, lst0 = observe(M.tools.opcode_list, prefix)
+    if st == "ok" and st0 == "ok" and isinstance(lst, list) and len(lst0) == nprefix:
+        if lst[:nprefix] != lst0:
+            rec.violation("opcode_list.truncated_changes_preceding_instructions", case, lst[:4], lst0[:4])
+        elif len(lst) > nprefix and str(lst[nprefix]).startswith("["):
+            rec.violation("opcode_list.truncated_shown_as_data", case, lst[nprefix], "not a [data] token")
+    # 5. the interpreter, with and without VERIFY_MINIMALDATA, push in the locking script / in the unlocking script / in a
+    #    branch that is not executed
+    if case.get("vm"):
+        F = M.network.validator.flags.VERIFY_MINIMALDATA
+        for role, sig, pub in (("pubkey", b"\x51", script), ("sig", script, b"\x51"), ("unexecuted", b"", prefix + b"\x51\x00\x63" + head + tail)):
+            res = {}
+            for flags in (0, F):
+                rec.ev("vm.truncated.%s.%s" % (role, "minimaldata" if flags else "plain"))
+                res[flags] = _vm_run(M, sig, pub, flags)
+                if res[flags][0] == "ok":
+                    rec.violation("vm.truncated_push_script_accepted." + role, dict(case, role=role), "accepted, flags=%d" % flags, "rejected")
+            if res[F][0] != "ok" and res[0][0] != "ok" and res[F][0] != res[0][0] and res[F][0] in _vm_nonmin_sigs(M):
+                rec.violation("vm.truncated_push_reported_non_minimal." + form, dict(case, role=role), res[F][1], res[0][1])
+
+
+def _tails(n, rng, full):
+    """Surviving-data classes for a push announcing n bytes: none, one byte of the constant set, one byte outside it, several."""
+    out = [b""]
+    if n >= 2:
+        cb = CONST_BYTES if full else (1, 16, 0x81, rng.choice(CONST_BYTES))
+        ob = OTHER_BYTES if full else (0x00, 0x11, rng.choice(OTHER_BYTES))
+        out += [bytes([b]) for b in cb] + [bytes([b]) for b in ob]
+    if n >= 3:
+        for k in sorted(set([2, (n + 1) // 2, n - 1])):
+            if 2 <= k < n:
+                out.append(bytes([rng.choice(CONST_BYTES)]) + bytes(rng.getrandbits(8) for _ in range(min(k, 600) - 1)) + b"\x00" * max(0, k - 600))
+                out.append(bytes([rng.choice(OTHER_BYTES)]) * k)
+    return out
+
+
+def run_truncm(spec, rec, M):
+    rng = shard_rng(spec["seed"], PROPERTY, spec["tier"], spec["shard"])
+    part, parts = spec.get("part", 0), spec.get("parts", 1)
+    prefixes = [b"", b"\x51", R.push_encode(b"\x22" * 5) + b"\x00", b"\x4f\x60" + R.push_encode(b"\x07" * 76)]
+    cases = []
+    # direct pushes: every opcode 1..75
+    for n in range(1, 76):
+        full = n <= 4 or n in (20, 32, 33, 75)
+        for tail in _tails(n, rng, full):
+            cases.append((bytes([n]), tail, full or len(tail) <= 1))
+    # PUSHDATA1/2/4: the length field cut at every point, then announced lengths of every class with every tail class
+    for op, width, lens in ((R.OP_PUSHDATA1, 1, [1, 2, 3, 16, 75, 76, 255]),
+                            (R.OP_PUSHDATA2, 2, [1, 2, 3, 75, 76, 255, 256, 520, 65535]),
+                            (R.OP_PUSHDATA4, 4, [1, 2, 3, 75, 76, 255, 256, 65535, 65536, 1 << 31, (1 << 32) - 1])):
+        for have in range(width):
+            for b in (0x00, 0x01, 0x02, 0x10, 0x81, 0x4b, 0xff):
+                for fill in (b, 0x00):
+                    if have or (b == 0 and fill == 0):
+                        cases.append((bytes([op]) + (bytes([b]) + bytes([fill]) * (have - 1) if have else b""), b"", True))
+        for n in lens:
+            for tail in _tails(min(n, 70000), rng, n <= 3 or n in (75, 76, 256)):
+                cases.append((bytes([op]) + n.to_bytes(width, "little"), tail, len(tail) <= 1 or n <= 3))
+    for i, (head, tail, vm) in enumerate(cases):
+        if i % parts != part:
+            continue
+        for j in ((0, 1 + i % 3) if vm else (i % 4,)):
+            check_truncm({"kind": "truncm", "prefix": prefixes[j], "head": head, "tail": tail, "vm": vm}, rec, M)
+    # random: any opcode, any announced length, surviving bytes biased to the four classes
+    for i in range(spec["n"]):
+        op = rng.choice([rng.randrange(1, 76), rng.randrange(1, 76), R.OP_PUSHDATA1, R.OP_PUSHDATA2, R.OP_PUSHDATA4])
+        width = {R.OP_PUSHDATA1: 1, R.OP_PUSHDATA2: 2, R.OP_PUSHDATA4: 4}.get(op, 0)
+        if width and rng.random() < 0.2:
+            head = bytes([op]) + bytes(rng.choice([0, 1, 5, 0x81, rng.getrandbits(8)]) for _ in range(rng.randrange(0, width)))
+            tail = b""
+        else:
+            n = op if not width else rng.choice([1, 2, 75, 76, 255, 256, rng.randrange(1, 1 << (8 * width))])
+            n = min(n, (1 << (8 * width)) - 1) if width else n
+            head = bytes([op]) + (n.to_bytes(width, "little") if width else b"")
+            k = rng.choice([0, 0, 1, 1, 1, 2, n - 1, rng.randrange(0, min(n, 700))])
+            k = max(0, min(k, n - 1, 700))
+            first = rng.choice([rng.choice(CONST_BYTES), rng.choice(OTHER_BYTES), rng.getrandbits(8)])
+            tail = (bytes([first]) + bytes(rng.getrandbits(8) for _ in range(k - 1))) if k else b""
+        prefix = b"".join(R.push_encode(rng.choice([b"", b"\x01", b"\x81", b"\x11", b"ab", b"\x4c" * 76, bytes(rng.getrandbits(8) for _ in range(rng.randrange(0, 40)))]))
+                          for _ in range(rng.choice([0, 0, 1, 2, 5])))
+        check_truncm({"kind": "truncm", "prefix": prefix, "head": head, "tail": tail, "vm": i % 2 == 0}, rec, M)
+    rec.sample({"op": "get_opcode(verify_minimal_data=True) / get_opcodes / interpreter with MINIMALDATA", "script": bytes.fromhex("510205"),
+                "reference": "malformed in both modes (the surviving byte 05 is not judged by the minimal-push rule)"})
 
 
 # -- script text ------------------------------------------------------------------------------
@@ -653,6 +1009,22 @@ def _hist_disturb(dist, M, keep):
                  lambda: M.streamer.get_opcode(b"\x51", 5), lambda: M.tools.compile_push_data_list([b"abc" * 30, None, "x"]),
                  lambda: M.tools.write_push_data([b"abc", b"de"], None)]
         return "raised" if observe(calls[dist["which"] % len(calls)])[0] != "ok" else "returned"
+    if k == "private_instance":
+        # another ScriptStreamer / ScriptTools pair with different tables and another handler is built and used
+        from pycoin.vm.ScriptStreamer import ScriptStreamer
+        from pycoin.vm.ScriptTools import ScriptTools
+        from pycoin.coins.bitcoin import ScriptStreamer as B
+        from pycoin.satoshi import opcodes
+        table = [(n, v) for n, v in opcodes.OPCODE_LIST if v != 0x61] + [("OP_QUIET", 0x61), ("OP_PUSH_1", 0xfe)]
+        which = dist["which"]
+        st = ScriptStreamer(B.make_opcode_const_list()[:9 + which % 3], B.make_opcode_sized_list()[:20 + which % 50],
+                            B.make_opcode_variable_list()[:1 + which % 3], dict(table), lambda msg: None)
+        tools = ScriptTools(table, M.ints[0], st)
+        observe(st.compile_push_data, dist["script"][:30])
+        observe(st.get_opcode, dist["script"], 0, verify_minimal_data=True)
+        observe(tools.compile, "OP_QUIET OP_1 [abcd] OP_16")
+        observe(tools.disassemble, dist["script"])
+        return "raised" if observe(tools.compile, "OP_NOP")[0] != "ok" else "returned"
     if k == "iterator":
         g = M.tools.get_opcodes(dist["script"], dist.get("vm", False))
         for _ in range(dist["steps"]):
@@ -735,7 +1107,9 @@ def run_hist(spec, rec, M):
         d = bytes([rng.choice([0, 1, 16, 17, 0x81, 0x80, rng.getrandbits(8)])]) if L == 1 else bytes(rng.getrandbits(8) for _ in range(L))
         v = rng.choice([0, 1, -1, 127, 128, -128, 255, 256, 32767, 32768, -32768, rng.randrange(-(1 << 40), 1 << 40)])
         k = i % 8
-        if k in (0, 1, 2):
+        if i % 16 == 2:
+            dist = {"d": "private_instance", "which": rng.randrange(150), "script": _nonminimal_script(rng)}
+        elif k in (0, 1, 2):
             toks = str(observe(M.tools.disassemble, _small_script(rng))[1]).split()[:60]
             pos = rng.choice([len(toks), len(toks), rng.randrange(0, len(toks) + 1), min(1, len(toks))])
             bad = rng.choice(BAD_TOKENS)
@@ -767,15 +1141,21 @@ def run_hist(spec, rec, M):
 # ---------------------------------------------------------------------------------------------
 
 _RUN = {"ints": run_ints, "int_edges": run_int_edges, "numbytes": run_numbytes, "push_small": run_push_small,
-        "push_len": run_push_len, "trunc": run_trunc, "script_enum": run_script_enum, "scripts": run_scripts, "hist": run_hist}
+        "push_len": run_push_len, "trunc": run_trunc, "truncm": run_truncm, "script_enum": run_script_enum, "scripts": run_scripts, "hist": run_hist}
 _REQ = {"ints": ["int_to_script_bytes", "int_from_script_bytes"], "int_edges": ["int_to_script_bytes", "int_from_script_bytes"],
         "numbytes": ["int_from_script_bytes.require_minimal", "numbytes.minimal", "numbytes.nonminimal"],
         "push_small": ["compile_push_data", "get_opcode", "get_opcode.verify_minimal_data", "compile_push_data_list", "get_opcodes"],
         "push_len": ["compile_push_data", "get_opcode", "get_opcode.verify_minimal_data"],
         "trunc": ["get_opcode.truncated", "trunc.length_field", "trunc.data"],
+        "truncm": ["get_opcode.truncated.minimal_on", "get_opcode.truncated.minimal_off", "get_opcodes.truncated.minimal_on",
+                   "private_handler.truncated.minimal_on", "opcode_list.truncated", "vm.truncated.pubkey.minimaldata",
+                   "vm.truncated.sig.minimaldata", "vm.truncated.unexecuted.minimaldata", "vm.truncated.pubkey.plain",
+                   "truncm.direct.data.none", "truncm.direct.data.one_const", "truncm.direct.data.one_other",
+                   "truncm.direct.data.several", "truncm.pushdata.length_field.none", "truncm.pushdata.data.none",
+                   "truncm.pushdata.data.one_const", "truncm.pushdata.data.one_other", "truncm.pushdata.data.several"],
         "script_enum": ["compile", "disassemble", "opcode_list", "get_opcodes"],
         "scripts": ["compile", "disassemble", "opcode_list", "get_opcodes", "get_opcodes.verify_minimal_data", "get_opcodes.start_pc"],
-        "hist": ["hist.query_after_disturbance", "hist.disturbance_raised", "hist.disturbance.bad_text", "hist.disturbance.iterator",
+        "hist": ["hist.query_after_disturbance", "hist.disturbance_raised", "hist.disturbance.bad_text", "hist.disturbance.iterator", "hist.disturbance.private_instance",
                  "get_opcodes.interleaved"]}
 
 
@@ -793,7 +1173,7 @@ def replay_case(case, rec):
     elif kind == "numbytes":
         check_numbytes(case["s"] if isinstance(case["s"], bytes) else b"", rec, M)
     elif kind == "push":
-        check_push(_fix(case), rec, M)
+        check_push(dict(_fix(case), wide=1), rec, M)
     elif kind == "pushlist":
         datas = [d if isinstance(d, bytes) else b"" for d in case["datas"]]
         check_push_list(datas, rec, M, case)
@@ -802,6 +1182,13 @@ def replay_case(case, rec):
         check_push_list([b"\x01", d, d[:300]], rec, M, case)
     elif kind == "trunc":
         check_trunc(_fix(case), rec, M)
+    elif kind == "truncm":
+        c = dict(case)
+        for k in ("prefix", "head", "tail"):
+            if not isinstance(c[k], bytes):
+                c[k] = b""
+        c["vm"] = True
+        check_truncm(c, rec, M)
     elif kind == "script":
         s = case["script"] if isinstance(case["script"], bytes) else b""
         if R.parse(s) is None:
